@@ -215,6 +215,9 @@ fn check_bfs_pred<D: Order + OutNeighbors>(
     let lazy = || sources.iter().copied().filter(|_| true);
     let items_l: Vec<(Option<usize>, usize)> = BfsPred::new(g, lazy()).collect();
     ensure!(items_l == items, "BfsPred<{name}>: sources passed through `filter` give {items_l:?}, passed directly {items:?}");
+    let h = gen::hint_pick(sources.len(), n + m.size());
+    let items_h: Vec<(Option<usize>, usize)> = BfsPred::new(g, gen::hinted(sources.to_vec(), h)).collect();
+    ensure!(items_h == items, "BfsPred<{name}>: sources from an iterator with size_hint {h:?} give {items_h:?}, passed directly {items:?}");
     let tree = BfsPred::new(g, sources.iter().copied()).predecessors();
     check_tree(&format!("BfsPred<{name}>::predecessors()"), &tree.pred, n, sources, &dist, &w)?;
 
@@ -275,7 +278,7 @@ impl Prop for C05 {
     type Case = Case;
     const ID: &'static str = "C05";
     const NUM: u64 = 5;
-    const RULE: &'static str = "weighted digraphs as in C03 (order 1..12 quick / 1..40 thorough) with distinct sources and a generated target subset T (empty, singleton, several, containing a source, unreachable only); BfsPred is run on the arc set in all five representations, DijkstraPred on AdjacencyListWeighted<usize>; enum leg: all digraphs of order <=3 with weights {1,2} x source lists x target subsets. About one random case in 25 has a large order (17..140, weighted towards 63..66, 96, 127..130, 140; at most 700 arcs). Non-trivial = T holds >=2 reachable vertices at different distances, or a source is a target, or a superseded heap entry is popped before the last vertex settles; distinct = distinct serialised case.";
+    const RULE: &'static str = "weighted digraphs as in C03 (order 1..12 quick / 1..40 thorough) with distinct sources and a generated target subset T (empty, singleton, several, containing a source, unreachable only); BfsPred is run on the arc set in all five representations, DijkstraPred on AdjacencyListWeighted<usize>; enum leg: all digraphs of order <=3 with weights {1,2} x source lists x target subsets. About one random case in 25 has a large order (17..140, weighted towards 63..66, 96, 127..130, 140; at most 700 arcs). Sources are also passed through `filter` and an iterator with another honest size_hint shape; up to order 40 predecessors() and shortest_path() are also called after 1, 2, len/2, len-1, len next() calls (reported predecessors must be valid, every reachable non-source vertex not yet yielded must have one, a target must be found exactly when one is still ahead). Non-trivial = T holds >=2 reachable vertices at different distances, or a source is a target, or a superseded heap entry is popped before the last vertex settles; distinct = distinct serialised case.";
     const ASSUMPTIONS: &'static [&'static str] = &[
         "which of several shortest paths / predecessors is returned is free",
         "cycles(): only soundness (every returned sequence is an elementary cycle), completeness is disclaimed by the documentation",
@@ -441,6 +444,9 @@ impl Prop for C05 {
         check_tree("DijkstraPred items", &from_items, n, s, dist, &w)?;
         let items_l: Vec<(Option<usize>, usize)> = DijkstraPred::new(&g, s.iter().copied().filter(|_| true)).collect();
         ensure!(items_l == items, "DijkstraPred: sources passed through `filter` give {items_l:?}, passed directly {items:?}");
+        let h = gen::hint_pick(s.len(), n + c.g.arcs.len());
+        let items_h: Vec<(Option<usize>, usize)> = DijkstraPred::new(&g, gen::hinted(s.clone(), h)).collect();
+        ensure!(items_h == items, "DijkstraPred: sources from an iterator with size_hint {h:?} give {items_h:?}, passed directly {items:?}");
         let tree = DijkstraPred::new(&g, s.iter().copied()).predecessors();
         check_tree("DijkstraPred::predecessors()", &tree.pred, n, s, dist, &w)?;
         let path = DijkstraPred::new(&g, s.iter().copied()).shortest_path(|v| targets.contains(&v));
